@@ -125,19 +125,21 @@ Fixpoint render_from (B : bytes) (lb : lbk) (ps : list rpart) (tail : bytes) : b
   | [] => [DASH; DASH] ++ tail
   | p :: r => lbs lb ++ r_hdr p ++ lbs lb ++ body_text lb p ++ lbs lb ++ dd B ++ render_from B lb r tail
   end.
+(* pre: everything before the first --B, i.e. the preamble and the (optional) line break of the first
+   delimiter *)
 Definition render (B : bytes) (lb : lbk) (pre : bytes) (ps : list rpart) (tail : bytes) : bytes :=
-  pre ++ lbs lb ++ dd B ++ render_from B lb ps tail.
+  pre ++ dd B ++ render_from B lb ps tail.
 
 (* the same text part by part, as an encoder writes it *)
 Definition render_part (B : bytes) (lb : lbk) (p : rpart) : bytes :=
   lbs lb ++ dd B ++ lbs lb ++ r_hdr p ++ lbs lb ++ body_text lb p.
 Lemma render_flat B lb pre ps tail :
-  render B lb pre ps tail =
+  render B lb (pre ++ lbs lb) ps tail =
   pre ++ flat_map (render_part B lb) ps ++ lbs lb ++ dd B ++ [DASH; DASH] ++ tail.
 Proof.
-  unfold render. f_equal. induction ps as [|p r IH]; [reflexivity|].
-  cbn [flat_map render_from]. unfold render_part. rewrite <- !app_assoc. do 5 f_equal.
-  rewrite <- IH. reflexivity.
+  unfold render. rewrite <- app_assoc. f_equal. induction ps as [|p r IH]; [reflexivity|].
+  cbn [flat_map render_from]. rewrite <- app_assoc, <- IH. unfold render_part.
+  rewrite <- !app_assoc. reflexivity.
 Qed.
 
 Definition zhead (lb : lbk) (fin : bool) : bytes := if fin then [DASH; DASH] else lbs lb.
@@ -169,9 +171,10 @@ Fixpoint wf_parts (B : bytes) (lb : lbk) (ps : list rpart) : bool :=
   | p :: r => part_ok B lb p (is_last r) && wf_parts B lb r
   end.
 
-(* the preamble does not contain --B; the tail (after the closing --B--) is arbitrary *)
+(* no --B starts inside pre (not even one that runs into the first delimiter); the tail (after the
+   closing --B--) is arbitrary *)
 Definition wf_body (B : bytes) (lb : lbk) (pre : bytes) (ps : list rpart) (tail : bytes) : bool :=
-  negb (contains (dd B) pre) && wf_parts B lb ps.
+  negb (contains (dd B) (pre ++ firstn (1 + length B) (dd B))) && wf_parts B lb ps.
 
 (* ---------- one part ---------- *)
 
@@ -264,3 +267,241 @@ Proof.
       apply glitch_lf in Eg; [|exact Ls]. unfold T1 in Eg.
       rewrite skipn_app, skipn_all, Nat.sub_diag in Eg. cbn [skipn app] in Eg. congruence.
 Qed.
+
+(* ---------- all parts ---------- *)
+
+Definition spec_ws (ps : list rpart) : list (part * bool) := map (fun q => (spec_part q, false)) ps.
+
+Lemma spec_ws_good ps : all_good (spec_ws ps) = true.
+Proof. induction ps as [|p r IH]; [reflexivity|exact IH]. Qed.
+
+Lemma spec_ws_parts ps : map fst (spec_ws ps) = map spec_part ps.
+Proof. unfold spec_ws. rewrite map_map. reflexivity. Qed.
+
+Lemma after_lb_starts_lf B lb q r tail :
+  r_hdr q <> [] -> starts_lf (r_hdr q) = false -> starts_lf (after_lb B lb q r tail) = false.
+Proof. intros H1 H2. unfold after_lb. rewrite starts_lf_app by exact H1. exact H2. Qed.
+
+Lemma walk_render B lb tail : good_boundary B = true -> forall ps p n,
+  wf_parts B lb (p :: ps) = true -> (length ps < n)%nat ->
+  walk n B (after_lb B lb p ps tail) = Some (spec_ws (p :: ps)).
+Proof.
+  intro HB. induction ps as [|q r IH]; intros p n Hwf Hn.
+  - cbn [wf_parts] in Hwf. apply andb_prop in Hwf. destruct Hwf as [Hok _].
+    destruct (walk_part B lb p [] tail HB Hok ltac:(right; reflexivity)) as [Hb [Hsk [Hfi [me [Hd [Hpay _]]]]]].
+    destruct n as [|n]; [lia|]. cbn [walk]. rewrite Hb.
+    replace (Nat.div (length (r_hdr p) + (length (r_hdr p) + 2 * length (lbs lb))) 2)
+      with (length (r_hdr p) + length (lbs lb))%nat by lia.
+    cbv zeta. cbn [is_last] in *. rewrite Hsk, Hd. rewrite Hfi, Hpay. reflexivity.
+  - pose proof Hwf as Hwf0. cbn [wf_parts] in Hwf. apply andb_prop in Hwf. destruct Hwf as [Hok Hwf'].
+    assert (Hq : part_ok B lb q (is_last r) = true).
+    { cbn [wf_parts] in Hwf'. apply andb_prop in Hwf'. apply Hwf'. }
+    destruct (part_ok_hdr _ _ _ _ Hq) as [Hq1 Hq2].
+    destruct (walk_part B lb p (q :: r) tail HB Hok
+                ltac:(left; cbn [rest_of]; apply after_lb_starts_lf; assumption))
+      as [Hb [Hsk [Hfi [me [Hd [Hpay Hnf]]]]]].
+    destruct (Hnf eq_refl) as [Eme [Hrest Hg]].
+    destruct n as [|n]; [lia|]. cbn [walk]. rewrite Hb.
+    replace (Nat.div (length (r_hdr p) + (length (r_hdr p) + 2 * length (lbs lb))) 2)
+      with (length (r_hdr p) + length (lbs lb))%nat by lia.
+    cbv zeta. cbn [is_last] in *. rewrite Hsk, Hd. rewrite Hrest, Hg, Hfi, Hpay. cbn [rest_of].
+    rewrite (IH q n Hwf' ltac:(cbn [length] in Hn; lia)). reflexivity.
+Qed.
+
+Lemma lb_len_lbs lb x : starts_lf x = false -> lb_len (lbs lb ++ x) = length (lbs lb).
+Proof.
+  destruct lb; cbn [lbs app lb_len length]; try reflexivity.
+  intro H. change (CR =? CR) with true. cbn iota. destruct x as [|c t]; [reflexivity|].
+  cbn [starts_lf] in H. rewrite H. reflexivity.
+Qed.
+
+Lemma render_from_len B lb ps tail : (length ps + 2 <= length (render_from B lb ps tail))%nat.
+Proof.
+  induction ps as [|p r IH]; cbn [render_from length].
+  - rewrite app_length. cbn [length]. lia.
+  - rewrite !app_length. pose proof (lbs_len lb). lia.
+Qed.
+
+Lemma match_rest_lbs lb Z :
+  starts_lf Z = false ->
+  match_rest (lbs lb ++ Z) = Some (length (lbs lb), false) /\ length (take_while hws (lbs lb ++ Z)) = 0%nat.
+Proof.
+  intro H. unfold match_rest. destruct lb; cbn [lbs app starts_with take_while length skipn].
+  - change (DASH =? CR) with false. change (hws CR) with false. cbn [andb length skipn lb_len].
+    change (CR =? CR) with true. change (LF =? LF) with true. cbn iota. split; reflexivity.
+  - change (DASH =? LF) with false. change (hws LF) with false. cbn [andb length skipn lb_len].
+    change (LF =? CR) with false. change (LF =? LF) with true. cbn iota. split; reflexivity.
+  - change (DASH =? CR) with false. change (hws CR) with false. cbn [andb length skipn lb_len].
+    change (CR =? CR) with true. cbn iota. destruct Z as [|d z]; [split; reflexivity|].
+    cbn [starts_lf] in H. rewrite H. split; reflexivity.
+Qed.
+
+(* the tail match at the first --B of the rendered body *)
+Lemma render_first_tail B lb pre ps tail :
+  good_boundary B = true -> wf_body B lb pre ps tail = true ->
+  exists e0, first_tail B (render B lb pre ps tail) (length pre) e0 (is_last ps) /\
+    (is_last ps = false -> e0 = (2 + length B + length (lbs lb))%nat /\
+                           blanks_at B (render B lb pre ps tail) (length pre) = 0%nat).
+Proof.
+  unfold good_boundary. intros HB Hwf. set (W := render B lb pre ps tail).
+  unfold wf_body in Hwf. apply andb_prop in Hwf.
+  destruct Hwf as [Hpre Hps]. apply negb_true_iff in Hpre.
+  assert (Esk : skipn (length pre) W = dd B ++ render_from B lb ps tail).
+  { unfold W, render. rewrite skipn_app, skipn_all, Nat.sub_diag. reflexivity. }
+  assert (Htail : exists e0, match_tail B (dd B ++ render_from B lb ps tail) = Some (e0, is_last ps) /\
+            (is_last ps = false -> e0 = (2 + length B + length (lbs lb))%nat /\
+               length (take_while hws (render_from B lb ps tail)) = 0%nat)).
+  { rewrite match_tail_rest, starts_with_refl_app.
+    rewrite <- dd_length, skipn_app, skipn_all, Nat.sub_diag. cbn [skipn app].
+    destruct ps as [|p r].
+    - cbn [render_from is_last]. unfold match_rest. cbn [app starts_with]. rewrite N.eqb_refl. cbn [andb].
+      eexists. split; [reflexivity|discriminate].
+    - cbn [render_from is_last]. cbn [wf_parts] in Hps. apply andb_prop in Hps. destruct Hps as [Hok _].
+      destruct (part_ok_hdr _ _ _ _ Hok) as [Hh1 Hh2].
+      destruct (match_rest_lbs lb (r_hdr p ++ lbs lb ++ body_text lb p ++ lbs lb ++ dd B ++ render_from B lb r tail))
+        as [M1 M2]; [rewrite starts_lf_app by exact Hh1; exact Hh2|].
+      rewrite M1.
+      eexists. split; [reflexivity|]. intros _. split; [rewrite dd_length; lia|exact M2]. }
+  destruct Htail as [e0 [Ht Hnf]]. exists e0. split.
+  - split; [unfold tail_at; rewrite Esk; exact Ht|].
+    intros j Hj. unfold tail_at. destruct (match_tail B (skipn j W)) as [[e f]|] eqn:Em; [exfalso|reflexivity].
+    apply match_tail_some_dd in Em.
+    (* the occurrence lies inside pre ++ all but the last byte of --B *)
+    assert (EW : W = (pre ++ firstn (1 + length B) (dd B)) ++ skipn (1 + length B) (dd B) ++ render_from B lb ps tail).
+    { unfold W, render. rewrite <- app_assoc. f_equal. rewrite app_assoc, firstn_skipn. reflexivity. }
+    assert (LA : length (pre ++ firstn (1 + length B) (dd B)) = (length pre + (1 + length B))%nat).
+    { rewrite app_length, firstn_length, dd_length. lia. }
+    rewrite EW in Em. rewrite skipn_app_le in Em by lia.
+    rewrite starts_with_app_len in Em by (rewrite skipn_length, dd_length; lia).
+    apply contains_skipn in Em. congruence.
+  - intro Hf. destruct (Hnf Hf) as [E1 E2]. split; [exact E1|].
+    unfold blanks_at. rewrite <- skipn_skipn, Esk. rewrite <- dd_length, skipn_app, skipn_all, Nat.sub_diag.
+    cbn [skipn app]. exact E2.
+Qed.
+
+(* THEOREM B, walk level: a wf rendered body is accepted and its one-shot parts are the rendered ones *)
+Theorem render_wf_oneshot B lb pre ps tail :
+  good_boundary B = true -> wf_body B lb pre ps tail = true ->
+  wf_oneshot B (render B lb pre ps tail) = true /\
+  oneshot_parts B (render B lb pre ps tail) = map spec_part ps.
+Proof.
+  intros HB Hwf. destruct (render_first_tail B lb pre ps tail HB Hwf) as [e0 [FT Hnf]].
+  set (W := render B lb pre ps tail) in *. set (d0 := length pre) in *.
+  destruct (first_tail_search B W d0 e0 _ FT) as [ms [Hs Hms]].
+  assert (Hbody : body_parts B W = Some (spec_ws ps) /\
+                  first_blanks_ok B W = true /\ first_glitch_free B W = true).
+  { unfold body_parts, first_blanks_ok, first_glitch_free. rewrite Hs. destruct ps as [|p r].
+    - cbn [is_last]. repeat split; reflexivity.
+    - cbn [is_last] in *. destruct (Hnf eq_refl) as [Ee0 Hbl]. rewrite Hms, Hbl. cbn [orb].
+      unfold wf_body in Hwf. apply andb_prop in Hwf. destruct Hwf as [_ Hps].
+      assert (Esk : skipn (d0 + e0) W = after_lb B lb p r tail).
+      { unfold W, render, d0. rewrite Ee0. cbn [render_from]. fold (after_lb B lb p r tail).
+        rewrite !app_assoc. rewrite skipn_app, skipn_all2 by (rewrite !app_length, dd_length; lia).
+        rewrite !app_length, dd_length. replace (_ - _)%nat with 0%nat by lia. reflexivity. }
+      rewrite Esk. split; [|split; [reflexivity|]].
+      + apply walk_render; [exact HB|exact Hps|].
+        unfold W, render. rewrite !app_length. pose proof (render_from_len B lb (p :: r) tail) as L.
+        cbn [length] in L. lia.
+      + destruct (glitch W (d0 + e0)) eqn:Eg; [|reflexivity].
+        apply glitch_lf in Eg; [|rewrite Ee0; lia]. rewrite Esk in Eg.
+        cbn [wf_parts] in Hps. apply andb_prop in Hps. destruct Hps as [Hok _].
+        destruct (part_ok_hdr _ _ _ _ Hok) as [Hh1 Hh2].
+        rewrite (after_lb_starts_lf B lb p r tail Hh1 Hh2) in Eg. discriminate. }
+  destruct Hbody as [Hb [H1 H2]]. unfold wf_oneshot, oneshot_parts. rewrite Hb, H1, H2, spec_ws_good.
+  split; [reflexivity|apply spec_ws_parts].
+Qed.
+
+(* THEOREM B: the one-shot run on a rendered body yields the parts that were rendered *)
+Theorem decode_render B lb pre ps tail :
+  good_boundary B = true -> wf_body B lb pre ps tail = true ->
+  wf_oneshot B (render B lb pre ps tail) = true /\
+  exists evs, drive no_limits B [render B lb pre ps tail] = Ok evs /\ parts_of evs = map spec_part ps.
+Proof.
+  intros HB Hwf. destruct (render_wf_oneshot B lb pre ps tail HB Hwf) as [H1 H2].
+  split; [exact H1|]. destruct (oneshot_spec B _ HB H1) as [evs [Hd Hp]].
+  exists evs. split; [exact Hd|]. rewrite Hp. exact H2.
+Qed.
+
+(* COROLLARY C: every chunking of a rendered body yields the rendered parts (header blocks up to
+   one leading LF).  The read loop of MultiPartParser.parse is feed: any buffer size and any short
+   reads are just a chunking. *)
+Theorem decode_render_chunked B lb pre ps tail chunks :
+  good_boundary B = true -> wf_body B lb pre ps tail = true ->
+  concat chunks = render B lb pre ps tail ->
+  exists evs, drive no_limits B chunks = Ok evs /\
+    Forall2 (fun a e : part => (fst a = fst e \/ fst a = LF :: fst e) /\ snd a = snd e)
+            (parts_of evs) (map spec_part ps).
+Proof.
+  intros HB Hwf Hc. destruct (render_wf_oneshot B lb pre ps tail HB Hwf) as [H1 H2].
+  rewrite <- Hc in H1. destruct (chunked_spec B chunks HB H1) as [evs [Hd Hrel]].
+  exists evs. split; [exact Hd|]. rewrite Hc, H2 in Hrel.
+  apply parts_rel_false_equiv. eapply parts_rel_weaken. exact Hrel.
+Qed.
+
+(* ---------- examples ---------- *)
+
+Definition ex_p1 := mkrp [97; 58; 49] None.
+Definition ex_p2 := mkrp [98; 58; 50] (Some []).
+Definition ex_p3 := mkrp [99; 58; 51] (Some ([120] ++ crlf ++ [DASH; DASH; 98; 111; 117; 110; 120] ++ crlf ++ [121])).
+
+(* the three-part body of Inv.v is a rendered body, and it is wf *)
+Example render_example :
+  render ex_B LBcrlf [] [ex_p1; ex_p2; ex_p3] crlf = ex_body /\
+  good_boundary ex_B = true /\ wf_body ex_B LBcrlf [] [ex_p1; ex_p2; ex_p3] crlf = true.
+Proof. vm_compute. repeat split; reflexivity. Qed.
+
+(* bare-LF and bare-CR bodies, with a preamble, an epilogue and payloads containing the line break *)
+Example render_example_lf :
+  wf_body ex_B LBlf [112; LF] [mkrp [97; 58; 49] (Some [120; LF; LF; DASH; DASH; 121]); ex_p1] [LF; 101] = true.
+Proof. vm_compute. reflexivity. Qed.
+Example render_example_cr :
+  wf_body ex_B LBcr [112; CR] [mkrp [97; 58; 49] (Some [120; CR; CR; DASH; DASH; 121]); ex_p1] [CR; 101] = true.
+Proof. vm_compute. reflexivity. Qed.
+
+Definition decoded (B W : bytes) : option (list part) :=
+  match drive no_limits B [W] with Ok evs => Some (parts_of evs) | Err _ => None end.
+
+(* each condition of wf_body is needed: without it the decoded parts are not the rendered ones *)
+(* --B inside the preamble *)
+Example wf_body_needed_pre :
+  let pre := DASH :: DASH :: ex_B ++ crlf ++ [120] ++ crlf in
+  wf_body ex_B LBcrlf pre [ex_p2] crlf = false /\ wf_parts ex_B LBcrlf [ex_p2] = true /\
+  decoded ex_B (render ex_B LBcrlf pre [ex_p2] crlf) <> Some (map spec_part [ex_p2]).
+Proof. vm_compute. repeat split; try reflexivity. discriminate. Qed.
+
+(* a blank line inside the header block *)
+Example wf_body_needed_hdr_blank :
+  let p := mkrp ([97; 58; 49] ++ crlf ++ crlf ++ [98]) (Some [120]) in
+  wf_body ex_B LBcrlf [] [p] crlf = false /\
+  decoded ex_B (render ex_B LBcrlf [] [p] crlf) <> Some (map spec_part [p]).
+Proof. vm_compute. split; [reflexivity|discriminate]. Qed.
+
+(* a delimiter inside the payload *)
+Example wf_body_needed_payload_delim :
+  let p := mkrp [97; 58; 49] (Some ([120] ++ ex_delim ++ crlf ++ [121])) in
+  wf_body ex_B LBcrlf [] [p] crlf = false /\
+  decoded ex_B (render ex_B LBcrlf [] [p] crlf) <> Some (map spec_part [p]).
+Proof. vm_compute. split; [reflexivity|discriminate]. Qed.
+
+(* LF body whose payload ends with CR: the CR joins the delimiter (the property restricts bare-LF
+   bodies to payloads free of the other newline kind) *)
+Example wf_body_needed_other_newline :
+  let p := mkrp [97; 58; 49] (Some [120; CR]) in
+  wf_body ex_B LBlf [] [p] [LF] = false /\
+  decoded ex_B (render ex_B LBlf [] [p] [LF]) = Some [([97; 58; 49], [120])].
+Proof. vm_compute. split; reflexivity. Qed.
+
+(* CR body whose payload starts with LF: the LF joins the line break that starts the body *)
+Example wf_body_needed_start_lb :
+  let p := mkrp [97; 58; 49] (Some [LF; 120]) in
+  wf_body ex_B LBcr [] [p] [CR] = false /\
+  decoded ex_B (render ex_B LBcr [] [p] [CR]) = Some [([97; 58; 49], [120])].
+Proof. vm_compute. split; reflexivity. Qed.
+
+(* a header block that starts with LF after a CR LF delimiter line: one-shot decoding is fine, but
+   the body is outside wf_oneshot (theorem A does not apply: see wf_needed_first_glitch) *)
+Example wf_body_needed_hdr_lf :
+  let p := mkrp [LF; 97; 58; 49] (Some [120]) in
+  wf_body ex_B LBcrlf [] [p] crlf = false /\
+  wf_oneshot ex_B (render ex_B LBcrlf [] [p] crlf) = false.
+Proof. vm_compute. split; reflexivity. Qed.
